@@ -28,6 +28,7 @@ const (
 	KSymlink  = "symlink"
 	KVanish   = "vanishing"
 	KUnread   = "unreadable-dir-entry" // a path below a regular file (ENOTDIR)
+	KReadFail = "opens-but-read-fails" // /proc/self/mem: open succeeds, the first read returns EIO
 )
 
 // ListCase is a path list described by entry kinds; Repeat > 1 builds large lists with duplicates.
@@ -40,7 +41,23 @@ type ListCase struct {
 
 func (c ListCase) size() int { return len(c.Kinds) + len(c.Dups) }
 
-func faulty(k string) bool { return k == KMissing || k == KDangling || k == KUnread }
+func faulty(k string) bool {
+	return k == KMissing || k == KDangling || k == KUnread || k == KReadFail
+}
+
+// readFailPath is a file that can be opened but not read ("" when the platform has none).
+var readFailPath = func() string {
+	const p = "/proc/self/mem"
+	f, err := os.Open(p)
+	if err != nil {
+		return ""
+	}
+	defer f.Close()
+	if _, err := f.Read(make([]byte, 1)); err == nil {
+		return ""
+	}
+	return p
+}()
 
 // build creates the entries under root and returns the path list.
 func (c ListCase) build(root string) ([]string, []string, error) {
@@ -78,6 +95,12 @@ func (c ListCase) build(root string) ([]string, []string, error) {
 				return nil, nil, err
 			}
 			vanishing = append(vanishing, p)
+		case KReadFail:
+			if readFailPath == "" {
+				// no such file here: fall back to a missing one (still an entry that cannot be read)
+				break
+			}
+			p = readFailPath
 		case KUnread:
 			base := filepath.Join(root, fmt.Sprintf("b%03d", i))
 			if err := os.WriteFile(base, []byte("file"), 0o644); err != nil {
